@@ -119,7 +119,7 @@ class Ctx:
         obls = [o for o in obls if self.want(o.key)]
         if not obls: return
         cap = cap or self.cap()
-        M.discharge(obls, cap, self.jobs, os.path.join(self.logdir, 'smt'))
+        M.discharge(obls, cap, self.jobs, os.path.join(self.logdir, 'smt'), stop_after_sat=5)
         for o in obls:
             self.queries += 1
             self.solver_time += o.time
@@ -128,7 +128,8 @@ class Ctx:
             if o.verdict == 'unsat':
                 self.add(key, 'M', 'discharged', o.time, '', getattr(o, 'nontrivial', True), sample)
             elif o.verdict == 'unknown':
-                self.add(key, 'M', 'undecided', o.time, f'solver gave no verdict within {cap}s', True, sample)
+                self.add(key, 'M', 'undecided', o.time, ('not run: 5 obligations of the same batch already have counterexamples' if getattr(o, 'skipped', False)
+                                                         else f'solver gave no verdict within {cap}s'), True, sample)
             else:
                 # native confirmation is expensive (process spawns, concretisation search): confirm a few representatives per obligation class,
                 # the remaining sat obligations of a class that already reproduced are reported as violated with a reference to the replayed one
